@@ -442,6 +442,9 @@ type exec struct {
 	addrMark  int               // index into addr where the last event started
 	cfgBefore int               // configuration index before the last event
 	preSnap   *snap             // snapshot before the last event
+	rejected   []int          // indices (in the executed trace, prefix excluded) of configuration updates that were refused
+	evIndex    int            // index of the event being executed, -1 during the prefix
+	toldBefore map[string]res // told-view of every container before the last event
 }
 
 type addressed struct {
@@ -511,6 +514,10 @@ func (x *exec) step(ev string) *reply {
 	x.last = rp
 	x.addrMark = len(x.addr)
 	x.cfgBefore = x.w.cfgIdx
+	x.toldBefore = map[string]res{}
+	for id, c := range x.w.byID {
+		x.toldBefore[id] = c.told
+	}
 	f := strings.Split(ev, ":")
 	w, p := x.w, x.in.m.nri
 	ctx := context.Background()
@@ -633,6 +640,8 @@ func (x *exec) step(ev string) *reply {
 		if rp.panic == "" {
 			if rp.err == nil {
 				w.cfgIdx = idx
+			} else if x.evIndex >= 0 {
+				x.rejected = append(x.rejected, x.evIndex)
 			}
 			x.applyUpdates(ev, "push", rp.pushed, "")
 		}
